@@ -22,9 +22,9 @@ import (
 type Def struct {
 	ID    string
 	Rule  string
-	Gen   func(tier string) []explore.Scenario         // the scenarios of a tier
-	Bound func(tier string, sc explore.Scenario) int  // deviation bound per scenario
-	Setup func(c *harness.Check)                       // extra evidence fields / sequential parts
+	Gen   func(tier string) []explore.Scenario       // the scenarios of a tier
+	Bound func(tier string, sc explore.Scenario) int // deviation bound per scenario
+	Setup func(c *harness.Check)                     // extra evidence fields / sequential parts
 }
 
 var Defs = map[string]*Def{}
@@ -74,6 +74,9 @@ func Worker(id, tier string, i, n int) {
 	for k := i; k < len(scs); k += n {
 		sc := scs[k]
 		bound := def.Bound(tier, sc)
+		if v, err := strconv.Atoi(os.Getenv("VERIF_BOUND")); err == nil {
+			bound = v // experiments only
+		}
 		var last *explore.Stats
 		done := -1
 		var found []explore.Found
@@ -225,6 +228,8 @@ func Main(id, tier string) {
 			c.Sample(map[string]any{"scenario": sc.Spec.Kind, "params": sc.Spec.Params, "bound": def.Bound(tier, sc), "horizon": sc.Horizon})
 		}
 	}
+	embed := os.Getenv("VERIF_EMBED") != ""
+	var confirmed []explore.Found
 	// confirm violations: the same schedule must fail the same way twice
 	for _, f := range total.Found {
 		sc := Build(f.Spec)
@@ -240,12 +245,30 @@ func Main(id, tier string) {
 				dev++
 			}
 		}
-		c.Violation(f.Violation, fmt.Sprintf("%s\n    scenario %s, schedule with %d deviations (replayed twice, identical)", f.Msg, f.Spec, dev), "mc/schedule", f)
+		f.Msg = fmt.Sprintf("%s\n    scenario %s, schedule with %d deviations (replayed twice, identical)", f.Msg, f.Spec, dev)
+		confirmed = append(confirmed, f)
+		if !embed {
+			c.Violation(f.Violation, f.Msg, "mc/schedule", f)
+		}
+	}
+	if embed {
+		total.Found = nil
+		js, _ := json.Marshal(Embedded{Stats: total, Scenarios: len(scs), BoundDone: minDone, Confirmed: confirmed})
+		fmt.Println("EMBED " + string(js))
+		return
 	}
 	if def.Setup != nil {
 		def.Setup(c)
 	}
 	c.Finish()
+}
+
+// Embedded is what an embedded run (VERIF_EMBED=1) hands back to the check that started it.
+type Embedded struct {
+	Stats     *explore.Stats  `json:"stats"`
+	Scenarios int             `json:"scenarios"`
+	BoundDone int             `json:"bound_done"`
+	Confirmed []explore.Found `json:"confirmed"`
 }
 
 // boundSequence iterates the deviation bound 0,1,2,... and jumps to the requested bound once
